@@ -87,6 +87,8 @@ def run_case(case, ctx):
         xdtype = "float64"
     kmeans0 = bool(rng.rand() < 0.6) or cls == "frame"
     max_iter = int([2, 5, 10, 30][rng.randint(4)])
+    if (sub // 9) % 6 == 0:
+        max_iter = [1, 3][(sub // 54) % 2]      # the smallest budgets (fit halves it for the initial k-means)
     rs = int(rng.randint(0, 1000))
     cfg = {"class": cls, "n": n, "k": k, "d": d, "n_mod_k": n % k, "strategy": strategy, "kmeans0": kmeans0,
            "x_dtype": xdtype,
@@ -194,6 +196,9 @@ def run_case(case, ctx):
             if isinstance(err, AssertionError) and "algorithm failed" in str(err) and strategy == "gain":
                 ctx.violation("C07/gain/fit/internal-assert", "fit raised the internal assertion: %s" % str(err)[:120],
                               cfg=cfg)
+            elif max_iter == 1 and kmeans0 and type(err).__name__ == "InvalidParameterError":
+                # fit gives half of the budget to the initial k-means: 1 // 2 = 0 iterations is refused by scikit-learn
+                ctx.excluded("max_iter=1 with kmeans0=True: refused (the initial k-means would get 0 iterations)")
             else:
                 ctx.violation(K + "fit/raised/%s" % type(err).__name__, "fit raised on valid data (n=%d >= k=%d): %s"
                               % (n, k, str(err)[:200]), cfg=cfg)
